@@ -18,15 +18,15 @@ CLAIMED = {
               'any grid size, layer count and payload, and all three layouts, the memory-mapped view equals the content view '
               '(chunk_records, leading_eq are its two halves); single_step_rejected shows the domain boundary. For the gridded '
               'average family the corresponding theorem is Camx.decodeMM_encode (C08/C09). The RECORD-BASED readers of the one3d '
-              'family and of height/pressure files are modelled as they are written (SlabRead.lean: layer count from the first '
+              'family, of height/pressure files and of temperature files are modelled as they are written (SlabRead.lean: layer count from the first '
               'time change, step = timediff, end found by seeking one step at a time, timerange, (date, time, layer) -> record '
               'number) and proved: read_decode_encode (on every file with a regular time axis of whole hours, step <= one day, '
-              '>= 2 steps, any grid/layers/payload they present exactly the written content) and readers_agree (hence the same '
+              '>= 2 steps, any grid/layers/payload they present exactly the written content) and readers_agree / readers_agree_temperature (hence the same '
               'steps, layers, times and cells as the memory-mapped reader). Correspondence: reference-encoded bytes (= Lean '
               'encoder) read by BOTH library readers of each format, each compared with its own Lean model and with the other '
               '(dimension lengths, float data as bits, time flags / timerange), incl. files with irregular time axes for the '
               'record-reader model.'),
-        note=BASE_NOTE + 'record readers: one3d family and height/pressure modelled and proved; the temperature, wind and uamiv record readers are compared (with the Memmap reader and the encoded content), not modelled. Python int(a/b) on floats is taken to equal truncating integer division at these magnitudes.',
+        note=BASE_NOTE + 'record readers: one3d family, height/pressure and temperature modelled and proved; the wind and uamiv record readers are compared (with the Memmap reader and the encoded content), not modelled. Python int(a/b) on floats is taken to equal truncating integer division at these magnitudes.',
         technique='Lean 4 proof (chunking/regrouping lemmas over framed records) + model/implementation correspondence for both reader families + reader-vs-reader oracle',
         design='§7 C08-C09-C13-C14'),
     'C18': dict(
